@@ -2,6 +2,7 @@ package main
 
 import (
 	"fmt"
+	"os"
 	"go/ast"
 	"go/printer"
 	"go/token"
@@ -717,6 +718,39 @@ func (vc *VC) applyModifies(st *State, spec *FuncSpec, env *Env, guard string) {
 	}
 }
 
+// onlyFreshWrites: was state variable n written, anywhere in the function, only at references
+// the function allocated itself?
+func (vc *VC) onlyFreshWrites(n string) bool {
+	seen := false
+	src := vc.written
+	if vc.writtenFrozen != nil {
+		src = vc.writtenFrozen
+	}
+	for _, m := range src {
+		if m["*"] != nil {
+			return false
+		}
+		for ix := range m[n] {
+			seen = true
+			// a sub-object of a fresh object is fresh
+			for strings.HasPrefix(ix, "(sub_") && strings.HasSuffix(ix, ")") {
+				if sp := strings.IndexByte(ix, ' '); sp > 0 {
+					ix = ix[sp+1 : len(ix)-1]
+				} else {
+					break
+				}
+			}
+			if _, ok := vc.allocBlock[ix]; !ok {
+				if os.Getenv("GOVC_DEBUG") != "" {
+					fmt.Fprintf(os.Stderr, "frame: %s written at non-fresh %q\n", n, ix)
+				}
+				return false
+			}
+		}
+	}
+	return seen
+}
+
 // frameObligations: every state variable the function wrote must be covered by its modifies clauses.
 func (vc *VC) frameObligations(st *State, guard string, pos token.Pos, kind string, results []Term) {
 	if vc.spec.clauses("modifies") == nil && !vc.spec.Pure {
@@ -747,6 +781,9 @@ func (vc *VC) frameObligations(st *State, guard string, pos token.Pos, kind stri
 		old := vc.get(vc.entry, n, sortName)
 		if cur == old {
 			continue
+		}
+		if strings.HasPrefix(sortName, "(Array Int ") && vc.onlyFreshWrites(n) {
+			continue // every write went to an object this function allocated: nothing that existed at entry changed
 		}
 		var goal string
 		if strings.HasPrefix(sortName, "(Array ") {
@@ -823,7 +860,7 @@ func (vc *VC) builtin(st *State, v *ssa.Call, b *ssa.Builtin, cc *ssa.CallCommon
 		mt := types.Unalias(m.T).Underlying().(*types.Map)
 		hn, hs, _, _ := vc.mapVars(mt)
 		h := vc.get(st, hn, hs)
-		vc.set(st, hn, hs, sx("store", h, m.S, sx("store", sx("select", h, m.S), args[1].S, "false")))
+		vc.setAt(st, hn, hs, m.S, sx("store", sx("select", h, m.S), args[1].S, "false"))
 	case "copy":
 		vc.havocAll(st, "builtin copy (over-approximated)")
 		vc.bindFresh(v, guard)
@@ -892,7 +929,7 @@ func (vc *VC) appendOp(st *State, v *ssa.Call, args []Term, guard string) {
 	// in-place append leaves the rest of the backing array alone
 	vc.assume(implies(fits, fmt.Sprintf("(forall ((j Int)) (! (=> (or (< j (+ (sl_off %s) (sl_len %s))) (>= j (+ (sl_off %s) %s))) (= (select %s j) (select %s j))) :pattern ((select %s j))))",
 		s.S, s.S, s.S, newLen, inner, oldInner, inner)))
-	vc.set(st, name, sortName, sx("store", cur, sx("sl_ref", r), inner))
+	vc.setAt(st, name, sortName, sx("sl_ref", r), inner)
 	vc.define(v, Term{S: r, Sort: "Slice"})
 }
 
